@@ -13,6 +13,8 @@ pub struct C11;
 
 #[derive(Clone, Debug)]
 pub struct Schedule {
+    /// index into METHODS for every in-flight request
+    pub methods: Vec<usize>,
     pub phases: Vec<Phase>,
     pub release_order: Vec<usize>,
     pub save: bool,
@@ -41,8 +43,16 @@ fn permutations(n: usize) -> Vec<Vec<usize>> {
 }
 
 pub fn all_schedules(max_k: usize) -> Vec<Schedule> {
-    let ph = [Phase::Started, Phase::Computed, Phase::Exited];
+    let ph = [Phase::Started, Phase::Acquired, Phase::Computed, Phase::Exited];
     let mut out = vec![];
+    // k = 1 with the worker parked inside its computation: every request method of the router once
+    for m in 0..METHODS.len() {
+        for save in [false, true] {
+            for same_key in [false, true] {
+                out.push(Schedule { methods: vec![m], phases: vec![Phase::Acquired], release_order: vec![0], save, same_key });
+            }
+        }
+    }
     for k in 0..=max_k {
         let mut vecs: Vec<Vec<Phase>> = vec![vec![]];
         for _ in 0..k {
@@ -61,6 +71,7 @@ pub fn all_schedules(max_k: usize) -> Vec<Schedule> {
                 for save in [false, true] {
                     for same_key in [false, true] {
                         out.push(Schedule {
+                            methods: (0..k).map(|i| (i * 5 + out.len()) % METHODS.len()).collect(),
                             phases: phases.clone(),
                             release_order: order.clone(),
                             save,
@@ -74,6 +85,40 @@ pub fn all_schedules(max_k: usize) -> Vec<Schedule> {
     out
 }
 
+/// every request method the router dispatches (each arm takes the server handle)
+pub const METHODS: &[&str] = &[
+    "textDocument/formatting",
+    "textDocument/rename",
+    "textDocument/codeAction",
+    "codeAction/resolve",
+    "textDocument/references",
+    "textDocument/definition",
+    "textDocument/prepareRename",
+    "textDocument/documentSymbol",
+    "workspace/symbol",
+    "textDocument/inlayHint",
+    "textDocument/inlineValues",
+    "textDocument/completion",
+    "completionItem/resolve",
+];
+
+fn params_for(method: &str, uri: &str) -> serde_json::Value {
+    match method {
+        "textDocument/formatting" => json!({"textDocument": {"uri": uri}, "options": {"tabSize": 2, "insertSpaces": true}}),
+        "textDocument/rename" => json!({"textDocument": {"uri": uri}, "position": {"line": 2, "character": 2}, "newName": "renamed"}),
+        "textDocument/codeAction" => json!({"textDocument": {"uri": uri}, "range": {"start": {"line": 0, "character": 0}, "end": {"line": 0, "character": 0}}, "context": {"diagnostics": []}}),
+        "codeAction/resolve" => json!({"title": "Section to list", "kind": "refactor.rewrite.section.list", "data": 1}),
+        "textDocument/references" => json!({"textDocument": {"uri": uri}, "position": {"line": 0, "character": 0}, "context": {"includeDeclaration": false}}),
+        "textDocument/definition" | "textDocument/prepareRename" => json!({"textDocument": {"uri": uri}, "position": {"line": 2, "character": 2}}),
+        "textDocument/documentSymbol" => json!({"textDocument": {"uri": uri}}),
+        "workspace/symbol" => json!({"query": ""}),
+        "textDocument/inlayHint" => json!({"textDocument": {"uri": uri}, "range": {"start": {"line": 0, "character": 0}, "end": {"line": 100, "character": 0}}}),
+        "textDocument/inlineValues" => json!({"textDocument": {"uri": uri}, "range": {"start": {"line": 0, "character": 0}, "end": {"line": 1, "character": 0}}, "context": {"frameId": 1, "stoppedLocation": {"start": {"line": 0, "character": 0}, "end": {"line": 1, "character": 0}}}}),
+        "textDocument/completion" => json!({"textDocument": {"uri": uri}, "position": {"line": 0, "character": 0}}),
+        _ => json!({"label": "x"}),
+    }
+}
+
 fn lib0() -> BTreeMap<String, String> {
     let mut l = BTreeMap::new();
     l.insert("a".to_string(), "# a v0\n\n[x](b)\n".to_string());
@@ -84,7 +129,35 @@ fn lib0() -> BTreeMap<String, String> {
 const WD: Duration = Duration::from_secs(20);
 
 impl C11 {
+    /// bounded progress: a schedule that stalls (no exit / no applied notification within the limit although every
+    /// gate is open) is re-run once on a fresh server; two stalls in a row are a verdict, one is inconclusive
     fn run_schedule(&self, sch: &Schedule, tag: u64, rep: &mut CaseReport) {
+        let mut probe = CaseReport::new(rep.case);
+        if !self.run_schedule_once(sch, tag, &mut probe) {
+            let mut second = CaseReport::new(rep.case);
+            if !self.run_schedule_once(sch, tag + 100_000, &mut second) {
+                rep.violate(
+                    "no-progress-after-release",
+                    &phase_locus(sch),
+                    format!("twice in a row: with requests {:?} parked at {:?} and released, the notification was not applied or a worker did not finish within {} s (all gates open): the server is wedged", sch.methods.iter().map(|m| METHODS[*m % METHODS.len()]).collect::<Vec<_>>(), sch.phases, WD.as_secs()),
+                    json!({"schedule": format!("{:?}", sch)}),
+                );
+                rep.count("events", 1);
+                return;
+            }
+            rep.inconclusive.push("one stall, not reproduced".into());
+            return;
+        }
+        rep.violations.extend(probe.violations);
+        rep.inconclusive.extend(probe.inconclusive);
+        rep.shapes.extend(probe.shapes);
+        for (k, v) in probe.counters {
+            rep.count(&k, v);
+        }
+    }
+
+    /// returns false when the schedule stalled (bounded-progress limit hit after all gates were opened)
+    fn run_schedule_once(&self, sch: &Schedule, tag: u64, rep: &mut CaseReport) -> bool {
         lsp::reset_log();
         mon::drain_thread_panics();
         let mut lib = lib0();
@@ -97,16 +170,13 @@ impl C11 {
             let uri = s.uri(key);
             // gate before the request exists: ids are allocated by the driver, so reserve via send + immediate gate is racy;
             // instead gate *all* phases of the next id first
-            let id = s.send_gated(
-                "textDocument/formatting",
-                json!({"textDocument": {"uri": uri}, "options": {"tabSize": 2, "insertSpaces": true}}),
-                *ph,
-            );
+            let method = METHODS[sch.methods.get(i).cloned().unwrap_or(0) % METHODS.len()];
+            let id = s.send_gated(method, params_for(method, &uri), *ph);
             if !lsp::wait_parked(id, *ph, WD) {
                 rep.inconclusive.push(format!("worker {} never parked at {:?}", id, ph));
                 lsp::release_all();
                 s.kill();
-                return;
+                return true;
             }
             ids.push(id);
         }
@@ -120,29 +190,50 @@ impl C11 {
             s.did_change(key, &text);
         }
         lib.insert(key.to_string(), text.clone());
-        // 3. the loop thread handles it (applied or panicked) — logical event, not a timeout
-        let handled = lsp::wait_for(
-            |ev, _| ev[mark.min(ev.len())..].iter().any(|e| matches!(e.1, Ev::Applied(_) | Ev::LoopPanicked(_))),
-            WD,
-        );
-        if !handled {
-            // the loop thread is blocked (e.g. waiting for a lock held by a parked worker): release and see
-            rep.count("loop_blocked_until_release", 1);
+        // 3. the loop thread handles it (applied or panicked) — a logical event. While a worker is parked inside its
+        // computation (Acquired) the loop thread legitimately waits for it, so nothing can be observed before release.
+        let inside = sch.phases.iter().any(|p| *p == Phase::Acquired);
+        let handled_pred = |ev: &[(u64, Ev)], _: &std::collections::HashSet<(i32, Phase)>| ev[mark.min(ev.len())..].iter().any(|e| matches!(e.1, Ev::Applied(_) | Ev::LoopPanicked(_)));
+        let mut after = None;
+        if !inside {
+            if !lsp::wait_for_quiet(handled_pred, WD) {
+                lsp::release_all();
+                s.kill();
+                return false;
+            }
+            // a request issued after the notification must see it
+            after = s.formatted_text(key);
         }
-        // a request issued after the notification must see it
-        let after = s.formatted_text(key);
-        // 4. release in the chosen order
+        // 4. release in the chosen order; from here on every gate opens, so progress is owed
         for &i in &sch.release_order {
             lsp::release(ids[i], sch.phases[i]);
-            if !lsp::wait_exited(ids[i], WD) {
-                rep.inconclusive.push(format!("worker {} did not exit after release", ids[i]));
+            let id = ids[i];
+            // while another worker is still parked inside its computation, a released worker may have to wait for it
+            // (the loop thread's pending edit goes first): progress is only owed once every gate is open
+            if !inside && !lsp::wait_for_quiet(|ev, _| ev.iter().any(|e| matches!(e.1, Ev::Exited(x, _) if x == id)), WD) {
+                lsp::release_all();
+                s.kill();
+                return false;
             }
         }
         lsp::release_all();
+        for &id in &ids {
+            if !lsp::wait_for_quiet(|ev, _| ev.iter().any(|e| matches!(e.1, Ev::Exited(x, _) if x == id)), WD) {
+                s.kill();
+                return false;
+            }
+        }
+        if inside {
+            if !lsp::wait_for_quiet(handled_pred, WD) {
+                s.kill();
+                return false;
+            }
+            after = s.formatted_text(key);
+        }
         for id in &ids {
             let o = s.outcome(*id, WD);
             if !o.answered() {
-                rep.violate("in-flight-request-unanswered", "gated-formatting", format!("{:?}", o), replay.clone());
+                rep.violate("in-flight-request-unanswered", "gated-request", format!("{:?}", o), replay.clone());
             }
         }
         // 5. quiescence: every note equals the last text sent for it
@@ -179,6 +270,7 @@ impl C11 {
         if !s.shutdown() {
             rep.violate("unclean-shutdown", "after-schedule", "main_loop did not end Ok".into(), replay);
         }
+        true
     }
 
     fn run_flood(&self, rng: &mut Rng, n_msgs: usize, rep: &mut CaseReport) {
@@ -264,6 +356,7 @@ impl C11 {
             .iter()
             .map(|e| match e {
                 Ev::Started(_) => "s".to_string(),
+                Ev::Acquired(_) => "a".to_string(),
                 Ev::Computed(_) => "c".to_string(),
                 Ev::Exited(..) => "x".to_string(),
                 Ev::Applied(_) => "A".to_string(),
@@ -376,6 +469,7 @@ fn phase_locus(s: &Schedule) -> String {
         .iter()
         .map(|p| match p {
             Phase::Started => "started",
+            Phase::Acquired => "acquired",
             Phase::Computed => "computed",
             Phase::Exited => "exited",
         })
